@@ -67,7 +67,7 @@ oracle(bool ok, const std::string& what)
   if (!ok)
     {
       ++g_fails;
-      if (g_fails <= 4000)
+      if (g_fails <= 40)
         std::fprintf(g_orc, "ORACLE-FAIL %s\n", what.c_str());
     }
 }
@@ -1395,8 +1395,9 @@ run_setting(const World& w, const MSet& ms, vh::Rng& rng, bool thorough, int wid
           for (int j = 0; j < sw.nbins && okS && okF; ++j)
             if (Fs[j] != F[big[j]])
               ++bad;
-          oracle(okS && okF && bad == 0, "forward projection into a ProjData smaller than the set-up geometry differs from the restriction of the whole-data projection on "
-                                             + std::to_string(bad) + " of " + std::to_string(sw.nbins) + " bins" + wsub);
+          oracle(okS, "forward_project refuses (throws for) a ProjData that is smaller than the set-up geometry although ProjDataInfo::operator>= holds" + wsub);
+          oracle(!okS || (okF && bad == 0), "forward projection into a ProjData smaller than the set-up geometry differs from the restriction of the whole-data projection on "
+                                                + std::to_string(bad) + " of " + std::to_string(sw.nbins) + " bins" + wsub);
           // a subset of the smaller data, with and without zeroing
           const int n = V >= 2 ? rng.range(2, std::min(V, 4)) : 1, i = rng.range(0, n - 1);
           for (int zero = 0; zero <= 1; ++zero)
@@ -1417,7 +1418,7 @@ run_setting(const World& w, const MSet& ms, vh::Rng& rng, bool thorough, int wid
                   else if (Ss[j] != ((zero && n > 1) ? 0.F : ps[j]))
                     ++frame_bad;
                 });
-              oracle(ok && okF && frame_bad == 0 && val_bad == 0,
+              oracle(!okS || (ok && okF && frame_bad == 0 && val_bad == 0),
                      "forward_project(smaller ProjData, subset " + std::to_string(i) + "/" + std::to_string(n) + ", zero=" + std::to_string(zero)
                          + "): " + std::to_string(val_bad) + " bins of the subset differ from the whole-data projection, " + std::to_string(frame_bad)
                          + " bins outside the subset are not " + (zero && n > 1 ? "zero" : "unchanged") + wsub);
@@ -1671,7 +1672,14 @@ run_setting(const World& w, const MSet& ms, vh::Rng& rng, bool thorough, int wid
                                   "original_forward_projector_ptr->forward_project(viewgrams, ...), which uses the image the ORIGINAL projector got in set_up] "
                                 + where);
           else
-            oracle(okp && bad == 0, std::string(buf) + where);
+            {
+              oracle(okp && bad == 0, std::string(buf) + where);
+              // (repaired code) the model's forward_project with the stencil as pre-data-processor answers the same operation
+              emit("pre smx", "ok");
+              emit("fwd FS x p 0 1 1", okp ? hexlist(FS) : "err");
+              emit("pre none", "ok");
+            }
+          const bool pres_ok = okp && bad == 0;
           shared_ptr<DiscretisedDensity<3, float>> im(w.image->get_empty_copy());
           im->fill(3.F);
           bool okb = true;
@@ -1712,7 +1720,20 @@ run_setting(const World& w, const MSet& ms, vh::Rng& rng, bool thorough, int wid
                                   "untouched target] "
                                 + where);
           else
-            oracle(okb && badb == 0, std::string(buf) + where);
+            {
+              oracle(okb && badb == 0, std::string(buf) + where);
+              // (repaired code) = start; back_project; get_output with the stencil as post-data-processor
+              emit("bsetup z", "ok");
+              emit("post smx", "ok");
+              emit("binto y 0 1", okb ? hexlist(BS) : "err");
+              emit("post none", "ok");
+              if (pres_ok && okb && badb == 0)
+                {
+                  const double l = dotd(FS, y), r = dotd(x, BS), tol = 4 * adj_tol(all_in, PS->on(xabs, nx), y);
+                  std::snprintf(buf, sizeof buf, "adjoint, Presmoothing forward / Postsmoothing back projector with the same symmetric filter: <A S x,y>=%.9g <x,S A'y>=%.9g tol=%.3g ", l, r, tol);
+                  oracle(std::fabs(l - r) <= tol, std::string(buf) + where);
+                }
+            }
           g_counts["smoothing_projector_pairs"]++;
         }
     }
